@@ -2,7 +2,7 @@
 From Coq Require Import NArith ZArith List Bool Arith Lia.
 From Carquet Require Import Base.Res Base.Bits Gen.Enums_gen Gen.Foreign_gen Enc.DeltaBits Enc.BitpackSpec Enc.BitpackModel
      Enc.BitpackProofs Enc.RleSpec Enc.RleModel Enc.RleVarint Enc.RleDecProofs Enc.PlainSpec Enc.PlainModel Enc.PlainProofs
-     Comp.CompBase Comp.SnappySpec Comp.SnappyModel Comp.SnappyProofs Comp.Lz4Spec Comp.Lz4Model Comp.Lz4Proofs
+     Comp.CompBase Comp.CompMem Comp.SnappySpec Comp.SnappyModel Comp.SnappyProofs Comp.Lz4Spec Comp.Lz4Model Comp.Lz4Proofs
      File.SpecPage File.ForeignModel.
 Import ListNotations.
 Local Open Scope N_scope.
@@ -1094,3 +1094,28 @@ Example chunk_example :
   decode_chunk no_external_d no_external_d col true 5 [dp; p1; p2]
   = decode_chunk no_external_d no_external_d col false 5 [dp; p1; p2].
 Proof. cbv zeta. split; vm_compute; reflexivity. Qed.
+
+(* ================================================================== codec id 5 holding what the format defines for it *)
+
+(** Compression.md defines codec 5 (LZ4) as the Hadoop frame: 4 bytes uncompressed size (big endian), 4 bytes compressed
+    size, then the block.  carquet sends id 5 to its bare-block decoder (lz4_id5_read_as_bare_block).  For every frame
+    of a page below 256 MiB the first byte (uncompressed size / 2^24) is below 16: as an LZ4 token it announces no
+    literals and a match - into an output that is still empty.  The decoder refuses it: such a page is rejected, it is
+    never decoded to wrong values. *)
+Theorem lz4_hadoop_frame_rejected_thm : forall tok a b rest cap,
+  tok < 16 -> exists e, Lz4Model.decompress (tok :: a :: b :: rest) cap = Err e.
+Proof.
+  intros tok a b rest cap Ht. unfold Lz4Model.decompress. cbn [length lz_loop].
+  unfold lz_step.
+  assert (E0 : tok / 16 = 0) by (apply N.div_small; exact Ht). rewrite E0.
+  cbn [N.eqb bind fst snd N.ltb N.compare]. 
+  change (nlen (a :: b :: rest) <? 2) with (N.of_nat (S (S (length rest))) <? 2).
+  destruct (N.ltb_spec (N.of_nat (S (S (length rest)))) 2) as [L|_]; [lia|].
+  destruct (rd_le 2 (a :: b :: rest)) as [offset|e|f] eqn:Er; cbn [bind].
+  - destruct (offset =? 0) eqn:Ez; cbn [orb]; [eexists; reflexivity|].
+    assert (En : (nlen (@nil N) <? offset) = true).
+    { apply N.ltb_lt. apply N.eqb_neq in Ez. unfold nlen. cbn [length N.of_nat]. lia. }
+    rewrite En. eexists. reflexivity.
+  - eexists. reflexivity.
+  - exfalso. cbn in Er. discriminate.
+Qed.
